@@ -69,6 +69,11 @@ pub struct Profile {
     pub idioms: bool,
     /// never let a body run off its end (C01: runtime errors are C04/C13's subject)
     pub no_fall_off: bool,
+    /// inline conditionals / sequences / calls inside choice text, several conditions (C01)
+    pub rich_choice_text: bool,
+    /// no tags in the text of functions (a tag raised while an expression inside choice text
+    /// is half evaluated lands among its operands: an engine quirk, not a language rule)
+    pub no_tags_in_functions: bool,
 }
 
 impl Default for Profile {
@@ -95,6 +100,8 @@ impl Default for Profile {
             done_and_fall_off: true,
             idioms: true,
             no_fall_off: false,
+            rich_choice_text: false,
+            no_tags_in_functions: false,
         }
     }
 }
@@ -637,25 +644,40 @@ impl<'a> Gen<'a> {
                 // options that are not on offer right now (leaves only the fallback)
                 conds.push(Expr::Lit(Lit::Bool(false)));
             }
-            let start = if self.t.chance(5, 6) {
+            let mut start = if self.t.chance(5, 6) {
                 vec![Inline::Text(self.words(1, 3))]
             } else {
                 vec![]
             };
+            if self.p.rich_choice_text && !start.is_empty() && self.t.chance(1, 5) {
+                start.push(Inline::Text(" ".into()));
+                start.extend(self.choice_inline(sc));
+            }
+            if self.p.rich_choice_text && !conds.is_empty() && self.t.chance(1, 3) {
+                conds.push(self.bool_expr(sc, 1));
+            }
             let bracket = if start.is_empty() || self.t.chance(1, 2) {
                 let mut v = vec![Inline::Text(self.words(if start.is_empty() { 1 } else { 0 }, 2))];
                 if self.t.chance(1, 8) {
                     v.push(Inline::Expr(self.int_expr(sc, 1)));
                 }
+                if self.p.rich_choice_text && self.t.chance(1, 5) {
+                    v.push(Inline::Text(" ".into()));
+                    v.extend(self.choice_inline(sc));
+                }
                 Some(v)
             } else {
                 None
             };
-            let end = if self.t.chance(1, 2) {
+            let mut end = if self.t.chance(1, 2) {
                 vec![Inline::Text(format!(" {}", self.words(1, 2)))]
             } else {
                 vec![]
             };
+            if self.p.rich_choice_text && !end.is_empty() && self.t.chance(1, 5) {
+                end.push(Inline::Text(" ".into()));
+                end.extend(self.choice_inline(sc));
+            }
             let mut tags = vec![];
             if self.t.chance(1, 8) {
                 tags.push(self.tag());
@@ -756,6 +778,29 @@ impl<'a> Gen<'a> {
             None
         };
         ChoiceGroup { choices, gather }
+    }
+
+    /// inline logic inside choice text: a conditional, a sequence, or a printed value
+    fn choice_inline(&mut self, sc: &Scope) -> Vec<Inline> {
+        match self.t.pick(8) {
+            0 => {
+                let c = self.bool_expr(sc, 1);
+                let a = vec![Inline::Text(self.words(1, 2))];
+                let b = if self.t.chance(1, 2) { vec![Inline::Text(self.words(1, 2))] } else { vec![] };
+                vec![Inline::Cond(c, a, b)]
+            }
+            1 | 2 | 3 => {
+                let kind = match self.t.pick(3) {
+                    0 => SeqKind::Stopping,
+                    1 => SeqKind::Cycle,
+                    _ => SeqKind::Once,
+                };
+                let na = 2 + self.t.pick(2);
+                let alts = (0..na).map(|_| vec![Inline::Text(self.words(1, 2))]).collect();
+                vec![Inline::Seq(kind, alts)]
+            }
+            _ => vec![Inline::Expr(self.printable_expr(sc))],
+        }
     }
 
     fn new_label(&mut self, sc: &Scope) -> String {
@@ -1043,7 +1088,10 @@ impl<'a> Gen<'a> {
             parts.push(Inline::Glue);
         }
         let mut tags = vec![];
-        let nt = if self.t.chance(1, 5) { 1 + self.t.pick(2) } else { 0 };
+        let mut nt = if self.t.chance(1, 5) { 1 + self.t.pick(2) } else { 0 };
+        if self.p.no_tags_in_functions && sc.func.is_some() {
+            nt = 0;
+        }
         for _ in 0..nt {
             tags.push(self.tag());
         }
